@@ -106,7 +106,7 @@ def run(ctx):
         return
 
     # 0. vacuity guard on the model: the requirement layer must reject the mechanism falco had before the fixes
-    for leg in ('{"exact-keys"}', '{"empty-subfield"}', '{"add-unassigned"}'):
+    for leg in ('{"exact-keys"}', '{"empty-subfield"}', '{"add-unassigned"}'):   # ("unset-ws-truncates" needs depth 5)
         alpha = '"thorough"' if "add" in leg else '"quick"'
         g = ctx.tlc("Headers", defines={"Alphabet": alpha, "Mode": '"cover"', "MaxOps": "2", "Legacy": leg}, workers=2,
                     expect_violation=True, timeout=300, tag="vacuity-guard " + leg)
